@@ -67,6 +67,13 @@ def type_matched_ok(repo: Repo) -> Tuple[Optional[bool], str]:
                 txt = ast.unparse(t)
                 if pol and all(pp in txt for pp in params) and any(k in txt for k in ("issubclass(", "isinstance(", "type(")):
                     related = True
+                # the test may live in a helper taking both operands
+                t0 = strip_cast(t)
+                if pol and isinstance(t0, ast.Call) and isinstance(t0.func, ast.Name) and ct.has(t0.func.id) and isinstance(ct.top(t0.func.id), ast.FunctionDef) \
+                        and all(any(pp in ast.unparse(a) for a in t0.args) for pp in params):
+                    body = ast.unparse(ct.top(t0.func.id))
+                    if "issubclass(" in body or "isinstance(" in body:
+                        related = True
             if not related:
                 return False, "the wrapped comparison is reached on a path that did not test that the operand types are related"
             continue
